@@ -14,8 +14,10 @@ mvars == <<fv, done>>
 Statuses == {200, 204, 301, 400, 401, 404, 418, 500, 503}
 \* ve: ValidationError with violations (header names / dotted paths); ve0: ValidationError without
 \* violations; err: sebuf Error; custom: another proto message; text / html / empty: not protobuf;
-\* trunc / wrongtype / deep / badutf8 / null / array / bignum: malformed documents (C11)
-Bodies == {"ve", "ve0", "err", "custom", "text", "html", "empty", "trunc", "wrongtype", "deep", "badutf8", "null", "array", "bignum", "randombytes"}
+\* trunc / wrongtype / deep / badutf8 / null / array / bignum: malformed documents (C11);
+\* space / newline / crlf: whitespace-only bodies (what http.Error(w, "", code) and many gateways send)
+Bodies == {"ve", "ve0", "err", "custom", "text", "html", "empty", "trunc", "wrongtype", "deep", "badutf8", "null", "array", "bignum", "randombytes",
+           "space", "newline", "crlf"}
 Ctypes == {"json", "proto", "texthtml", "none", "jsoncharset"}
 Langs == {"go", "ts"}
 Family == {c \in {[status |-> s, body |-> b, ctype |-> ct, lang |-> lg] : s \in Statuses, b \in Bodies, ct \in Ctypes, lg \in Langs} :
@@ -27,7 +29,7 @@ RespOf(c) == [status |-> c.status,
               ve |-> [ok |-> c.body \in {"ve", "ve0"} /\ c.ctype \in {"json", "proto", "jsoncharset", "none"},
                       viol |-> IF c.body = "ve" THEN <<<<"X-API-Key", "required header is missing">>, <<"user.email", "must be a valid email">>>> ELSE <<>>],
               err |-> [ok |-> c.body = "err", msg |-> IF c.body = "err" THEN "boom" ELSE ""],
-              raw |-> IF c.ctype # "proto" /\ c.body \notin {"empty", "badutf8", "randombytes"} THEN "TEXT" ELSE ""]
+              raw |-> IF c.ctype # "proto" /\ c.body \notin {"empty", "badutf8", "randombytes"} THEN "TEXT" ELSE ""]   \* (whitespace is text too)
 ContractRet(c) ==
   LET r == RespOf(c) IN
   IF Success(r.status) THEN [kind |-> "ok", viol |-> <<>>, status |-> 0, message |-> "", body |-> ""]
